@@ -39,15 +39,20 @@ TEXTS["C03"] = {
                   "three delivery modes; any sanitizer report, hang, or allocation beyond 4*maxRequestSize+64KiB is a "
                   "violation. Exhaustive within alphabet and length bounds, which is where the end-of-buffer and "
                   "overflow defects of this class live.",
-    "level_note": NOTE_A + "; server-level 'other connections keep being answered' is covered by C07/C08 harnesses",
+    "level_note": NOTE_A + "; a second part (c03_server) delivers the request-side inputs to one connection of a real "
+                  "Http::Handler + Tcp::Transport while a bystander connection of the same worker is in mid-request: 4xx/5xx or "
+                  "left waiting, bystander answered with its own response, no exception leaves the event loop; a streamed-body "
+                  "family checks the size limit while a body keeps arriving",
 }
 TEXTS["C04"] = {
     "engine": "seqx", "design_ref": "DESIGN.md §4 C04",
     "technique": "explicit enumeration of all message sequences up to depth K on one connection, executed on the real "
                  "handler/transport (server) and Connection (client), differential oracle against a fresh connection",
-    "level_text": "All sequences of length <= K over 33 request events and 24 response events run on one real "
-                  "connection; each message's observation must equal the fresh-connection observation and the parser "
-                  "must be back in the fresh state. Exhaustive to depth K.",
+    "level_text": "All sequences of length <= K over 17 request events x 3 deliveries and 10 response events x 3 deliveries run on "
+                  "one real connection; each message's observation must equal the fresh-connection observation and the parser "
+                  "must be back in the fresh state; every pair (predecessor padded to the 4096-byte read size, successor in "
+                  "the same write) reaches the handler in two consecutive calls with no system call failing in between. "
+                  "Exhaustive to depth K.",
     "level_note": NOTE_A,
 }
 TEXTS["C05"] = {
@@ -56,7 +61,9 @@ TEXTS["C05"] = {
                  "judged by an independent RFC 7230 reference reader",
     "level_text": "Every body length of the range (covering the 512/1024/2048 buffer doublings), every status code, "
                   "header/cookie set, limit setting around the exact size and every stream program up to Kops is "
-                  "executed; the reference reader must accept exactly one message with the intended framing.",
+                  "executed; file responses (serveFile: sizes x name extensions x header/cookie sets) are executed under "
+                  "every plan of short / would-block socket answers with <= 1 (thorough 2) deviations and with head-size "
+                  "limits; the reference reader must accept exactly one message with the intended framing.",
     "level_note": NOTE_A + "; the reference reader (harness/common/rfc7230.h) is part of the trusted base",
 }
 
@@ -76,14 +83,19 @@ TEXTS["C11"] = {
                  "create/attach/settle events) executed on the real templates, compared with a reference interpreter",
     "level_text": "All programs of exactly K operations (K=4 quick, 5 thorough) over create / then (5 continuation kinds x 3 "
                   "rejection handlers) / whenAll / whenAllRange / whenAny / resolve / reject run on the real async.h; the "
-                  "multiset of continuation outcomes must equal the reference's, nothing runs twice, nothing escapes.",
+                  "multiset of continuation outcomes must equal the reference's, nothing runs twice, nothing escapes. Further "
+                  "exhaustive families: combinator sweep (1..4 inputs x pre-settled subsets x settle orders x outcomes), "
+                  "void-source chains, ownership (every subset of the chain's promise objects and the resolver dropped "
+                  "before the outcome arrives); and, with the controlled scheduler of C12, every schedule within the "
+                  "preemption bound of two threads settling the inputs of whenAny / whenAll (plus a TSan pass).",
     "level_note": NOTE_A + "; what the property leaves open (derived promise after a non-rethrowing handler) is not compared",
 }
 TEXTS["C12"] = {
     "engine": "vsched", "design_ref": "DESIGN.md §4 C12",
     "technique": "stateless model checking of the real code: preemption-bounded DFS over all schedules of 2-3 real threads "
                  "gated at hook points in async.h, plus the same schedules under ThreadSanitizer",
-    "level_text": "Nine settle-vs-attach scenarios; every schedule with <=2 preemptions (thorough: <=3, and all schedules for "
+    "level_text": "Seventeen settle-vs-attach scenarios (root, derived one or two levels, void promises, pending inner promises, "
+                  "derived promises that already carry a continuation); every schedule with <=2 preemptions (thorough: <=3, and all schedules for "
                   "the 2-thread scenarios) is executed on the real Promise implementation and each continuation must run "
                   "exactly once with the settled outcome; TSan sees the same serialised schedules without happens-before "
                   "from the scheduler, so unsynchronised accesses are reported.",
@@ -124,17 +136,21 @@ TEXTS["C07"] = {
     "technique": "exhaustive enumeration of a stall grid (pending writes x would-block position x stall duration x arrival "
                  "step of another connection's request x kernel event order) on the real transport, step-bounded liveness "
                  "and busy-wait verdicts",
-    "level_text": "All 3360 combinations run on the real transport + Http::Handler; the other connection must be answered "
+    "level_text": "All combinations of the grid run on the real transport + Http::Handler; the other connection must be answered "
                   "within a fixed number of event-loop steps, the worker must return to epoll_wait after a would-block, and "
-                  "the stalled connection must receive everything after release.",
+                  "the stalled connection must receive everything after release. A second harness (c07_idle) measures the stall "
+                  "in virtual time on a real gated endpoint: every (response size, stall of 0..5 half-seconds around the idle "
+                  "time-out, input on the stalled connection at tick i, bystander request at tick j) combination.",
     "level_note": NOTE_B,
 }
 TEXTS["C08"] = {
     "engine": "vsched", "design_ref": "DESIGN.md §4 C08",
     "technique": "explicit enumeration of all client-event histories up to a depth bound against a real Http::Endpoint whose "
                  "threads are gated at epoll_wait under virtual time; invariants after every history",
-    "level_text": "All histories over connect / partial and whole requests / read / close / half-close / reset / tick (and, "
-                  "thorough, write stalls) on 1..2 connections up to the depth bound are executed; handler call balance, "
+    "level_text": "All histories over connect / partial and whole requests / read / close / half-close / reset / tick, their composites, "
+                  "write stalls, failing writes (ECONNRESET) and a vanished peer (read fails with ETIMEDOUT, no further event), "
+                  "with handlers that answer at once, serve files, arm response time-outs or keep the response for later, "
+                  "on 1..2 connections up to the depth bound are executed; handler call balance, "
                   "double release, descriptor and per-connection state at quiescence, continued service and thread "
                   "termination are checked after each.",
     "level_note": NOTE_B,
@@ -167,7 +183,9 @@ TEXTS["C15"] = {
     "level_text": "For every scenario (client threads, connection limit, batch of tagged requests, per-request server "
                   "behaviour, time-outs) every schedule within the deviation bound is executed against the real client; "
                   "settle-once, own-response-only, fulfilled-when-answered, rejected-on-time-out and the connection limit are "
-                  "checked per execution.",
+                  "checked per execution; scenarios include two hosts through one client; the per-host ring of waiting "
+                  "requests is instantiated with capacities 2, 4, 8 and driven through every enqueue/dequeue sequence of "
+                  "length 16 (20) against a bounded FIFO.",
     "level_note": NOTE_B + "; one known finding (late response after a time-out) is listed in known_findings.json",
 }
 
